@@ -494,7 +494,7 @@ async fn grid_d(p: &EpParams, case: u64) -> EpReport {
             su.w.settle().await;
             su.seq.m.acked(&s, &[a1.clone()], now);
             su.seq.m.modified(&s, &[a2.clone()], 30, now);
-            su.seq.after_step("Modify").await;
+            su.seq.after_step("AckModify").await;
         }
         _ => {
             label = "unary [a1, unknown, a2] +3 (shorten)";
